@@ -99,8 +99,8 @@ func (h *Handler) findOrCreate(clientID []byte, mac net.HardwareAddr, name strin
 		if name != "" && lease.Name != name {
 			lease.Name = name
 		}
-		// if lease.subnet.LAN.IP.Mask(lease.subnet.LAN.Mask).Equal(subnet.LAN.IP.Mask(subnet.LAN.Mask)) &&
-		if lease.subnet.LAN == subnet.LAN &&
+		// compare the subnets, not their prefixes: the netfilter prefix can be as long as the home LAN (the default)
+		if lease.subnet == subnet &&
 			bytes.Equal(lease.Addr.MAC, mac) {
 			return lease
 		}
